@@ -80,6 +80,8 @@ def enabled(t):
     if len(names) >= 2:
         ops.append(("space_slice", names[0], names[1]))
         ops.append(("space_slice", names[1], None))
+        ops.append(("space_step", 2))
+        ops.append(("space_step", -1))
     n0 = t.data.shape[0]
     mask = [(i % 2 == 0) for i in range(n0)]
     for kind in ("tensor", "list", "ndarray"):
@@ -126,6 +128,20 @@ def apply_model(t, op):
         a = names.index(op[1])
         b = names.index(op[2]) if op[2] is not None else None
         sel = names[a:b]
+        cols = []
+        for n in sel:
+            cols += t.cols(n)
+        return Table([(n, dict(t.space)[n]) for n in sel], t.data[:, cols]), None
+    if k == "space_step":
+        if nb != 1:
+            # with more batch axes the second index addresses the second BATCH axis (torch knows no negative steps)
+            if op[1] < 0:
+                raise Reject("negative step on a batch axis")
+            d = t.data[:, ::op[1]]
+            if d.size == 0:
+                raise Reject("empty")
+            return Table(t.space, np.ascontiguousarray(d)), None
+        sel = [n for n, _ in t.space][::op[1]]
         cols = []
         for n in sel:
             cols += t.cols(n)
@@ -202,6 +218,8 @@ def apply_real(p, t, op):
         return p[..., op[1]]
     if k == "space_slice":
         return p[:, op[1]:op[2]]
+    if k == "space_step":
+        return p[:, ::op[1]]
     if k == "mask":
         return p[conv(op[1], op[2], torch.bool),]
     if k == "index":
@@ -477,6 +495,16 @@ def space_algebra(res, on_v):
                 S = A[list(sub)]
                 if list(S.items()) != [(v, VARS[v]) for v in sub]:
                     on_v("C12|space|list-select", "Space(%s)[%s] = %s" % (a, list(sub), list(S.items())), None, [])
+        for st_ in (2, -1, -2):
+            S = A[::st_]
+            n += 1
+            if list(S.items()) != [(v, VARS[v]) for v in a[::st_]]:
+                on_v("C12|space|step-slice", "Space(%s)[::%d] = %s" % (a, st_, list(S.items())), None, [])
+        if len(a) >= 2:
+            S = A[a[-1]:a[0]:-1]
+            n += 1
+            if list(S.items()) != [(v, VARS[v]) for v in a[len(a) - 1:0:-1]]:
+                on_v("C12|space|step-slice", "Space(%s)[%s:%s:-1] = %s" % (a, a[-1], a[0], list(S.items())), None, [])
         for v in a:
             if A[v] != VARS[v]:
                 on_v("C12|space|getitem", "Space(%s)[%s] = %s" % (a, v, A[v]), None, [])
